@@ -42,6 +42,12 @@ CHECKS = {
         note="Trusted: Lean kernel; correspondence harness with patched os.stat/datetime inside cache_manager; registry-cache transparency is decided by the twin-client oracle on sampled histories (no Lean model of the registry caches yet); syscall-level races between processes are not exhibited.",
         design="DESIGN.md §5 C17",
     ),
+    "C14": dict(
+        technique="Lean 4: kernel-checked grammar facts extracted from the live PLY parser + exhaustive keyword-case theorem over the lexer model; LR model over the extracted LALR tables tied by token/tree/error correspondence; model-free oracles for precedence, insensitivity and round trip",
+        text="Proved in Lean 4: the productions, precedence table, ordered lexer rules (master regex), reserved words and ignored characters of the running parser equal the expected ones (facts regenerated from the live PLY objects every run); every one of the 280 case spellings of the reserved words lexes to the keyword; leading blanks/tabs are insignificant; documented range-literal values. The lexer model and the LR driver over the extracted tables are compared with PLY on generated, variant, mutated and garbage strings (tokens, trees, printed forms, error classes). Documented precedence/associativity, keyword-case/whitespace/redundant-parenthesis insensitivity, print-reparse round trip, literal values and the user-facing error class are decided on the implementation by model-free oracles.",
+        note="Partial: parse_print (round trip) and parse_range (well-formed trees) are NOT proved as theorems (an LR-correctness proof is out of reach here); they are decided by the oracles on generated inputs. Trusted: Lean kernel, fact extractor, harness, PLY's table construction is not trusted (tables are extracted and executed by the model), astropy for time values.",
+        design="DESIGN.md §5 C14",
+    ),
 }
 
 NOT_YET = {}
